@@ -23,7 +23,7 @@ func (p *c11) Setup(env *fw.Env) error {
 	p.N = env.Pick(40, 1500)
 	p.RuleS = "each case is a package of 1-3 generated .gox class files (a var block of 2-7 fields over int, string, float64, bool, []int, map[string]int, a pointer to another class, grouped names, exported and unexported; 3-8 methods with parameters, variadics, multiple and named results, bare and this-qualified field access, parameters shadowing fields, calls of sibling methods, closures over fields, loops) plus a main program that drives every method and prints results and fields; the reference is the same program with each class written as an explicit struct with pointer-receiver methods (receiver this), built by the Go toolchain. Oracle: same stdout/exit status/panic line, and (static, on the written Go source) the generated type has exactly the declared fields in order with the declared types and exactly the declared methods with receiver `this *Class`."
 	p.Assume = []string{"method bodies are written in Go syntax so that the reference is the same text with fields qualified by this."}
-	p.Floor = map[string]int{"#evaluations": p.N * 9 / 10, "#nontrivial": p.N * 8 / 10, "pairs-executed": p.N * 8 / 10, "stdout-lines-compared": p.N * 8, "classes-type-checked": p.N, "methods-generated": p.N * 4, "feature:field-shadowed-by-parameter": p.N / 3, "feature:sibling-method-call": p.N / 2, "feature:pointer-to-other-class": p.N / 4}
+	p.Floor = map[string]int{"#evaluations": p.N * 9 / 10, "#nontrivial": p.N * 8 / 10, "pairs-executed": p.N * 8 / 10, "stdout-lines-compared": p.N * 8, "classes-type-checked": p.N, "methods-generated": p.N * 4, "feature:field-shadowed-by-parameter": p.N / 3, "feature:sibling-method-call": p.N / 2, "feature:pointer-to-other-class": p.N / 4, "feature:package-function-named-like-method": p.N / 4}
 	return nil
 }
 
@@ -212,7 +212,14 @@ func (p *c11) build(c fw.Case, r *fw.Rec) pairBuild {
 		xgo[cl.name+".gox"] = gox.String()
 		mainBody.WriteString(cl.drive.String())
 	}
-	mainSrc := "func main() {\n" + mainBody.String() + "}\n"
+	// package-level functions named like class methods: a bare call inside a class method still means the sibling method
+	pkgFuncs := ""
+	if rnd.Chance(1, 2) {
+		pkgFuncs = "func Get() int { return -1000 }\n\nfunc Add(d int) { fmt.Println(\"package-level Add\", d) }\n\n"
+		mainBody.WriteString("\tAdd(Get())\n")
+		r.Cover("feature:package-function-named-like-method")
+	}
+	mainSrc := pkgFuncs + "func main() {\n" + mainBody.String() + "}\n"
 	xgo["main.xgo"] = "import \"fmt\"\n\n" + mainSrc
 	ref.WriteString(mainSrc)
 	return pairBuild{
